@@ -15,19 +15,20 @@
    code (fast path clones the read; a consumed history becomes nil); the two other variants are the
    code without the respective repair - the theorems are about [cur], the refutations show that
    the model still contains Go's aliasing and that each repair is necessary.
-   Headers: d_hdr is a VALUE in this model, so a defect that SHARES a *Header / *JTMessage object
-   between two holders (the class of fixes 4b6a3bd: timeout record and first packet, a3fb0a0: merged
-   message and last packet) is NOT expressible here; what justifies the value - only Header.decode
-   assigns the listed fields, on a fresh JTMessage - is checked on the sources by the harness
-   (C09/header-field-assigned, fails closed: C09/header-scan-empty) and named in checks/C09.json.
+   Headers: d_hdr is a VALUE in Model/Mem.v.  The headers as MEMORY are Model/HdrMem.v (second part
+   of this file): a heap of header cells and a heap of property words, a delivered message = the
+   index of its header cell, the parser's and the writer's assignments to header fields = stores,
+   and a variant that says which headers are shared (the shapes of fixes 4b6a3bd and a3fb0a0).  That
+   nothing else assigns the listed fields is still checked on the sources by the harness
+   (C09/header-field-assigned, fails closed: C09/header-scan-empty).
    All relative timings of "the reader receives the next data" and "a handler / the writer still
    holds the message" are the positions j >= k+1 at which the content is inspected; truly
    concurrent access to the same bytes is C18's subject. *)
 From Coq Require Import Arith.
 From JT.Base Require Import Prelude GoSlice.
-From JT.Model Require Import Frame Mem MemAbs.
+From JT.Model Require Import Frame Mem MemAbs HdrMem.
 From JT.Model Require Unpack Subpkg Reply.
-From JT.Proofs Require Import Mem_proofs Mem_refine.
+From JT.Proofs Require Import Mem_proofs Mem_refine HdrMem_proofs.
 
 (* the content of a delivered message - raw frame bytes, body bytes, BCD phone bytes - is the same
    in every later state as right after its delivery: for every history of reads (any bytes, any
@@ -142,6 +143,69 @@ Theorem C09_core_is_parse : forall now vs d, Subpkg.fresh now (Subpkg.ps_x vs) -
   Subpkg.parse now vs d = parse_core now vs d.
 Proof. exact parse_core_parse. Qed.
 Print Assumptions C09_core_is_parse.
+
+(* ================= the header as memory (Model/HdrMem.v) =================
+   A history is a list of steps HFeed now d (one read at time now: packageParse.parse - decode into
+   fresh header cells, timeout record on packet 1, merged message on completion, the stores of
+   supplementarySubPackage into the record's header) and HReply k rid ps blen (the writer answers
+   delivered message number k: ReplyID, PlatformSerialNumber, and Header.Encode's BodyDayaLen /
+   PacketFragmented, stored into THAT message's header - by design of the library).  hview st k is
+   what the holder of message k reads: header cell and, through its pointer, property word. *)
+
+(* message id, serial, package total and number, phone of a delivered message never change, over
+   every history - in every variant: no store touches those fields (they are written only when the
+   cell is allocated) *)
+Theorem C09_header_stable : forall v es1 es2 k view1, hview (hrun v es1) k = Some view1 ->
+  exists view2, hview (hrun v (es1 ++ es2)) k = Some view2 /\ listed view2 = listed view1.
+Proof. exact listed_stable. Qed.
+Print Assumptions C09_header_stable.
+
+(* current code (the record and the merged message hold deep copies), one step from any reachable
+   state: the holder of message k' reads the WHOLE header as before - property word, reply id and
+   platform serial included - unless the step is the writer's answer to message k' itself; then
+   exactly the assigned fields change *)
+Theorem C09_header_owned : forall es e k' view, hview (hrun hcur es) k' = Some view ->
+  hview (hstep_run hcur (hrun hcur es) e) k' =
+  Some match e with
+       | HReply k rid ps blen => if Nat.eqb k k' then (set_reply rid ps (fst view), set_encode blen (snd view)) else view
+       | HFeed _ _ => view
+       end.
+Proof. exact header_owned. Qed.
+Print Assumptions C09_header_owned.
+
+(* ... hence over any continuation in which the writer does not answer message k *)
+Theorem C09_header_undisturbed : forall es1 es2 k view, hview (hrun hcur es1) k = Some view -> no_reply_to k es2 ->
+  hview (hrun hcur (es1 ++ es2)) k = Some view.
+Proof. exact header_stable. Qed.
+Print Assumptions C09_header_undisturbed.
+
+(* the repaired sharings break exactly that (the model contains them): timeoutRecord.initHeader = the
+   first packet's header (before 4b6a3bd; and the struct copy that still shares the *BodyProperty):
+   packet 1, 5.1 s, any read - the held first packet shows ReplyID 0x8003, fragment flag 0 and the
+   re-request's body length; merged message = the completing packet's header (before a3fb0a0; and
+   the shallow copy): the writer's answer to the completing packet shows in the merged message *)
+Theorem C09_refuted_shared_header_record : header_disturbed {| hv_rec := Shared; hv_merge := Deep |} hx_rereq_1 hx_rereq_2 0.
+Proof. exact refuted_record_shared. Qed.
+Print Assumptions C09_refuted_shared_header_record.
+Theorem C09_refuted_shared_property_record : header_disturbed {| hv_rec := Shallow; hv_merge := Deep |} hx_rereq_1 hx_rereq_2 0.
+Proof. exact refuted_record_shallow. Qed.
+Print Assumptions C09_refuted_shared_property_record.
+Theorem C09_refuted_shared_header_merged : header_disturbed {| hv_rec := Deep; hv_merge := Shared |} hx_merge_1 hx_merge_2 2.
+Proof. exact refuted_merge_shared. Qed.
+Print Assumptions C09_refuted_shared_header_merged.
+Theorem C09_refuted_shared_property_merged : header_disturbed {| hv_rec := Deep; hv_merge := Shallow |} hx_merge_1 hx_merge_2 2.
+Proof. exact refuted_merge_shallow. Qed.
+Print Assumptions C09_refuted_shared_property_merged.
+
+(* the same two histories on the current code *)
+Example C09_example_header_rereq :
+  hview (hrun hcur (hx_rereq_1 ++ hx_rereq_2)) 0 = hview (hrun hcur hx_rereq_1) 0 /\
+  hview (hrun hcur hx_rereq_1) 0 <> None /\ length (hs_del (hrun hcur (hx_rereq_1 ++ hx_rereq_2))) = 3%nat.
+Proof. exact ex_cur_rereq. Qed.
+Example C09_example_header_merge :
+  hview (hrun hcur (hx_merge_1 ++ hx_merge_2)) 2 = hview (hrun hcur hx_merge_1) 2 /\
+  hview (hrun hcur (hx_merge_1 ++ hx_merge_2)) 1 <> hview (hrun hcur hx_merge_1) 1.
+Proof. exact ex_cur_merge. Qed.
 
 (* ---- the model contains Go's aliasing: without either repair the property fails ---- *)
 (* without bytes.Clone in the fast path: two escape-free frames in two reads - the first message
